@@ -264,6 +264,8 @@ def deviations():
     d += [d_same_name, d_icode_run, d_model2_clash("0.30", "0.70"), d_model2_clash("0.70", "0.30")]
     d += [d_models_interleaved]
     d += [d_models_zero_based, d_models_out_of_order, d_boundary_twin]
+    # occupancies that differ in the second decimal only (after seed C08-l)
+    d += [d_altloc("0.33", "0.34"), d_repeat("0.45", "0.48"), d_close("0.48", "0.45")]
     return d
 
 
